@@ -152,7 +152,12 @@ Record world : Type := mkWorld {
   w_iface_removed : bool;                  (* Node.RemoveInterface done: the node has no interface left *)
   w_big_id : Z; w_big : bool;              (* an oversized (9-byte) message sent by the same interface:
                                               a CAN 2.0A bus refuses an interface that carries it *)
-  w_static2 : option Z }.                  (* static CAN-ID of the second node's message, if any
+  w_static2 : option Z;
+  w_gw_id : Z; w_gw_on_bus : bool; w_gw_removed : bool }.
+                                           (* the node is a gateway: its SECOND interface sends a
+                                              message of its own on a different bus (default
+                                              builder, priority 0); nothing done to the first bus
+                                              or interface may touch it *)                  (* static CAN-ID of the second node's message, if any
                                               (constant): static CAN-IDs are unique per bus *)
 
 Inductive edit : Type :=
@@ -200,25 +205,29 @@ Fixpoint set_nth {A : Type} (i : nat) (v : A) (l : list A) : list A :=
 Definition upd_msg (w : world) (id prio st : Z) (hs : bool) : world :=
   mkWorld id prio st hs (w_attached w) (w_on_bus w) (w_node_id w) (w_builders w) (w_cur w)
     (w_sib_id w) (w_sib_attached w) (w_node2_id w) (w_on_bus2 w) (w_in_net w) (w_iface_removed w)
-    (w_big_id w) (w_big w) (w_static2 w).
+    (w_big_id w) (w_big w) (w_static2 w) (w_gw_id w) (w_gw_on_bus w) (w_gw_removed w).
 Definition upd_links (w : world) (att onb sib onb2 innet rem : bool) : world :=
   mkWorld (w_id w) (w_prio w) (w_static w) (w_has_static w) att onb (w_node_id w) (w_builders w) (w_cur w)
-    (w_sib_id w) sib (w_node2_id w) onb2 innet rem (w_big_id w) (w_big w) (w_static2 w).
+    (w_sib_id w) sib (w_node2_id w) onb2 innet rem (w_big_id w) (w_big w) (w_static2 w) (w_gw_id w) (w_gw_on_bus w) (w_gw_removed w).
 Definition upd_big (w : world) (big : bool) : world :=
   mkWorld (w_id w) (w_prio w) (w_static w) (w_has_static w) (w_attached w) (w_on_bus w) (w_node_id w) (w_builders w) (w_cur w)
     (w_sib_id w) (w_sib_attached w) (w_node2_id w) (w_on_bus2 w) (w_in_net w) (w_iface_removed w)
-    (w_big_id w) big (w_static2 w).
+    (w_big_id w) big (w_static2 w) (w_gw_id w) (w_gw_on_bus w) (w_gw_removed w).
+Definition upd_gw (w : world) (onb rem : bool) : world :=
+  mkWorld (w_id w) (w_prio w) (w_static w) (w_has_static w) (w_attached w) (w_on_bus w) (w_node_id w) (w_builders w) (w_cur w)
+    (w_sib_id w) (w_sib_attached w) (w_node2_id w) (w_on_bus2 w) (w_in_net w) (w_iface_removed w)
+    (w_big_id w) (w_big w) (w_static2 w) (w_gw_id w) onb rem.
 (* the second node's message holds this static CAN-ID on the bus *)
 Definition static2_is (w : world) (x : Z) : bool :=
   match w_static2 w with Some y => x =? y | None => false end.
 Definition upd_node (w : world) (nid : Z) : world :=
   mkWorld (w_id w) (w_prio w) (w_static w) (w_has_static w) (w_attached w) (w_on_bus w) nid (w_builders w) (w_cur w)
     (w_sib_id w) (w_sib_attached w) (w_node2_id w) (w_on_bus2 w) (w_in_net w) (w_iface_removed w)
-    (w_big_id w) (w_big w) (w_static2 w).
+    (w_big_id w) (w_big w) (w_static2 w) (w_gw_id w) (w_gw_on_bus w) (w_gw_removed w).
 Definition upd_builders (w : world) (bs : list (list op)) (cur : nat) : world :=
   mkWorld (w_id w) (w_prio w) (w_static w) (w_has_static w) (w_attached w) (w_on_bus w) (w_node_id w) bs cur
     (w_sib_id w) (w_sib_attached w) (w_node2_id w) (w_on_bus2 w) (w_in_net w) (w_iface_removed w)
-    (w_big_id w) (w_big w) (w_static2 w).
+    (w_big_id w) (w_big w) (w_static2 w) (w_gw_id w) (w_gw_on_bus w) (w_gw_removed w).
 
 (* does the library accept the operation in this state?  (the error it returns otherwise is the
    subject of C06; here only the fact of refusal, which decides whether the state changes) *)
@@ -254,7 +263,7 @@ Definition accepted (w : world) (o : wop) : bool :=
   | WBigRemove => w_big w
   | WBusRemove => w_on_bus w
   | WBusRemoveAll => true
-  | WRemoveInterface => negb (w_iface_removed w)
+  | WRemoveInterface => negb (w_iface_removed w && w_gw_removed w)   (* the node has two interfaces *)
   | WNetAdd => negb (w_in_net w)
   | WNetRemove => w_in_net w
   | WBusAdd2 => negb (w_on_bus2 w) && negb (w_on_bus w && (w_node_id w =? w_node2_id w))
@@ -283,7 +292,11 @@ Definition wapply (w : world) (o : wop) : world :=
   | WBusAdd => upd_links w (w_attached w) true (w_sib_attached w) (w_on_bus2 w) (w_in_net w) (w_iface_removed w)
   | WBusRemove => upd_links w (w_attached w) false (w_sib_attached w) (w_on_bus2 w) (w_in_net w) (w_iface_removed w)
   | WBusRemoveAll => upd_links w (w_attached w) false (w_sib_attached w) false (w_in_net w) (w_iface_removed w)
-  | WRemoveInterface => upd_links w (w_attached w) false (w_sib_attached w) (w_on_bus2 w) (w_in_net w) true
+  | WRemoveInterface =>
+      (* Node.RemoveInterface(0): first the observed interface; once it is gone the gateway
+         interface is number 0 and goes next (it is taken off ITS bus) *)
+      if w_iface_removed w then upd_gw w false true
+      else upd_links w (w_attached w) false (w_sib_attached w) (w_on_bus2 w) (w_in_net w) true
   | WNetAdd => upd_links w (w_attached w) (w_on_bus w) (w_sib_attached w) (w_on_bus2 w) true (w_iface_removed w)
   | WNetRemove => upd_links w (w_attached w) (w_on_bus w) (w_sib_attached w) (w_on_bus2 w) false (w_iface_removed w)
   | WBusAdd2 => upd_links w (w_attached w) (w_on_bus w) (w_sib_attached w) true (w_in_net w) (w_iface_removed w)
@@ -311,7 +324,12 @@ Definition view (w : world) : message :=
 
 Definition world_can_id (w : world) : Z := get_can_id (view w).
 
+(* GetCANID of the message sent through the gateway interface (attached to it throughout) *)
+Definition gateway_can_id (w : world) : Z :=
+  get_can_id (mkMessage (w_gw_id w) 0 0 false
+                (Some (mkNodeInt (w_node_id w) (if w_gw_on_bus w then Some (mkBus default_ops) else None)))).
+
 (* the sibling message is attached from the start *)
-Definition init_world (mid nid sib_id node2_id big_id : Z) (static2 : option Z) (pool : list (list op)) : world :=
+Definition init_world (mid nid sib_id node2_id big_id gw_id : Z) (static2 : option Z) (pool : list (list op)) : world :=
   mkWorld (u32 mid) 0 0 false false false (u32 nid) (default_ops :: pool) 0
-    (u32 sib_id) true (u32 node2_id) false false false (u32 big_id) false static2.
+    (u32 sib_id) true (u32 node2_id) false false false (u32 big_id) false static2 (u32 gw_id) true false.
